@@ -102,7 +102,15 @@ type zzClo struct {
 	env    *zzFrame
 	name   string // non-empty for defun: implicit block of that name
 	prim   string // non-empty: a built-in function designated by name
-	undef  []string // functions called in the body that did not exist at creation (carve-out regions only)
+}
+
+// zzSite models, for carve-out regions only, which function object the interpreter binds a call
+// form to: generation 0 is the placeholder made for a call compiled before any defun of the
+// name; patched is true when that object is the one every later defun updates in place.
+type zzSite struct {
+	p       *slip.Object
+	gen     int
+	patched bool
 }
 
 type zzCell struct {
@@ -166,7 +174,8 @@ const (
 	zzHDoAtomTest         // do/do* whose end test is not a list form
 	zzHLambdaSym          // an unbound symbol as a body form of lambda/defun
 	zzHIgnoreRaw          // ignore-errors around a form that signals without an enclosing function call
-	zzHFwdCall            // a call to a function that did not exist when the enclosing lambda/defun was created
+	zzHFwdCall            // a call with arguments compiled before its callee existed
+	zzHStaleCall          // a call bound to a function object that a later defun did not update
 	zzHMax        = 24
 )
 
@@ -182,6 +191,8 @@ type zzRef struct {
 	maxIt  int
 	// exits leaving sub-forms: "form/role/kind" (carve-out regions only)
 	transits []string
+	sites    []*zzSite
+	phNames  []string // names that got a placeholder before their first defun
 }
 
 func zzNewRef() *zzRef {
@@ -742,14 +753,12 @@ func (r *zzRef) evalList(l slip.List, e *zzFrame) zzOut {
 		return zzOut{ex: ex}
 	}
 	if c := r.findFn(head); c != nil {
-		for f := e; f != nil; f = f.up {
-			if f.isFn && f.clo != nil {
-				for _, u := range f.clo.undef {
-					if u == head {
-						r.hit[zzHFwdCall] = true
-					}
-				}
-			}
+		st := r.bindSite(l, head)
+		if st.gen == 0 && 1 < len(l) {
+			r.hit[zzHFwdCall] = true
+		}
+		if !st.patched && st.gen != r.gen(head) {
+			r.hit[zzHStaleCall] = true
 		}
 		return r.applyClo(c, args, e)
 	}
@@ -795,26 +804,89 @@ func (r *zzRef) mkClo(rest []slip.Object, e *zzFrame, name string) *zzClo {
 	}
 	c.body = rest[1:]
 	for _, f := range c.body {
-		r.scanUndef(f, c)
+		r.bindEager(f)
 	}
 	return c
 }
 
-// scanUndef lists the functions called in a body that do not exist yet.
-func (r *zzRef) scanUndef(f slip.Object, c *zzClo) {
+func (r *zzRef) gen(name string) int {
+	n := 0
+	for _, f := range r.fnames {
+		if f == name {
+			n++
+		}
+	}
+	return n
+}
+
+func (r *zzRef) hasPlaceholder(name string) bool {
+	for _, f := range r.phNames {
+		if f == name {
+			return true
+		}
+	}
+	return false
+}
+
+func (r *zzRef) findSite(l slip.List) *zzSite {
+	for _, st := range r.sites {
+		if st.p == &l[0] {
+			return st
+		}
+	}
+	return nil
+}
+
+// bindSite records the function object a call form is bound to when the interpreter turns the
+// list into a function object (which it does once, in place).
+func (r *zzRef) bindSite(l slip.List, name string) *zzSite {
+	if st := r.findSite(l); st != nil {
+		return st
+	}
+	g := r.gen(name)
+	if g == 0 && !r.hasPlaceholder(name) {
+		r.phNames = append(r.phNames, name)
+	}
+	st := &zzSite{p: &l[0], gen: g, patched: g == 0 || g == 1 && !r.hasPlaceholder(name)}
+	r.sites = append(r.sites, st)
+	return st
+}
+
+// zzEagerArgs: which argument positions of a form the interpreter compiles when the enclosing
+// lambda is created (ordinary functions: all; special forms: none, except the key of case and
+// the mutex of with-mutex-lock).
+func zzEagerArgs(h string, n int) (from, to int) {
+	switch h {
+	case "progn", "prog1", "funcall", "apply", "mapcar", "values", "error":
+		return 1, n
+	case "case", "with-mutex-lock":
+		return 1, 2
+	}
+	if zzIsSpecial(h) {
+		return 0, 0
+	}
+	return 1, n
+}
+
+// bindEager walks a body form the way the interpreter compiles it at definition time.
+func (r *zzRef) bindEager(f slip.Object) {
 	l, ok := f.(slip.List)
 	if !ok || len(l) == 0 {
 		return
 	}
 	h := zzHead(l)
-	if h == "quote" {
+	if h == "" {
 		return
 	}
-	if h != "" && !zzIsSpecial(h) && !zzIsPrim(h) && r.findFn(h) == nil && h != c.name {
-		c.undef = append(c.undef, h)
+	if !zzIsSpecial(h) && !zzIsPrim(h) {
+		st := r.bindSite(l, h)
+		if st.gen == 0 {
+			return // placeholder: the argument list is dropped, nothing below is compiled
+		}
 	}
-	for i := 1; i < len(l); i++ {
-		r.scanUndef(l[i], c)
+	from, to := zzEagerArgs(h, len(l))
+	for i := from; i < to && i < len(l); i++ {
+		r.bindEager(l[i])
 	}
 }
 
